@@ -103,6 +103,12 @@ func (iter *FastIterator) Next() {
 
 	if iter.fastIterator == nil {
 		iter.fastIterator, iter.err = iter.ndb.getFastIterator(iter.start, iter.end, iter.ascending)
+		if iter.err != nil {
+			// no underlying iterator: stay invalid and report the error through Error()
+			iter.fastIterator = nil
+			iter.valid = false
+			return
+		}
 		iter.valid = true
 	} else {
 		iter.fastIterator.Next()
